@@ -49,6 +49,7 @@ type propSpec struct {
 	Outside     string     `json:"outside"`
 	Stubs       []string   `json:"stubs"`
 	Assumptions []string   `json:"assumptions"`
+	Helpers     []string   `json:"helpers"`
 	dir         string
 }
 
@@ -70,6 +71,17 @@ func overlayFor(spec *propSpec, verifDir string) (map[string][]byte, error) {
 			return nil, err
 		}
 		ov[filepath.Join(repoDir, "internal", "zzverif", "vrt", filepath.Base(f))] = b
+	}
+	// helper packages (virtual directories /repo/internal/zzverif/<name>)
+	for _, h := range spec.Helpers {
+		files, _ := filepath.Glob(filepath.Join(verifDir, "harness", "helpers", h, "*.go"))
+		for _, f := range files {
+			b, err := os.ReadFile(f)
+			if err != nil {
+				return nil, err
+			}
+			ov[filepath.Join(repoDir, "internal", "zzverif", h, filepath.Base(f))] = b
+		}
 	}
 	for _, u := range spec.Units {
 		for _, f := range u.Files {
